@@ -51,11 +51,15 @@ type c15Op struct {
 	Size int    `json:"size,omitempty"`
 	Fill uint64 `json:"fill,omitempty"` // seed of the row bytes
 	Undo bool   `json:"undo,omitempty"` // isRollbackOrUndo of UpdateTuple
+	At   int    `json:"at,omitempty"`   // ins: the row carries the row id (page, At-1), the way redo / undo re-insert a row (0 = no row id)
 }
 
 func (o c15Op) String() string {
 	switch o.Op {
 	case "ins":
+		if o.At > 0 {
+			return fmt.Sprintf("ins(size=%d, at slot %d)", o.Size, o.At-1)
+		}
 		return fmt.Sprintf("ins(size=%d)", o.Size)
 	case "upd":
 		return fmt.Sprintf("upd(slot=%d,size=%d,undo=%v)", o.Slot, o.Size, o.Undo)
@@ -252,10 +256,25 @@ func (e *c15Exec) step(op c15Op, rng *rand.Rand) (v *c15Viol) {
 	switch op.Op {
 	case "ins":
 		data := c15Bytes(op.Fill, op.Size)
-		tpl := tuple.NewTuple(nil, uint32(op.Size), append([]byte(nil), data...))
+		var at *page.RID
+		want := -1 // the slot the row has to go to if it is accepted (-1: lowest empty slot, else a new one)
+		if op.At > 0 {
+			at = &page.RID{PageID: types.PageID(c15PageID), SlotNum: uint32(op.At - 1)}
+			e.res.Add("inserts_at_a_given_row_id", 1)
+			if op.At-1 == len(e.slots) || (op.At-1 < len(e.slots) && e.slots[op.At-1].st == c15Empty) {
+				want = op.At - 1
+				if want == len(e.slots) && e.firstEmpty() >= 0 {
+					e.res.Add("inserts_at_a_new_slot_while_a_lower_slot_is_empty", 1)
+				}
+			}
+		}
+		tpl := tuple.NewTuple(at, uint32(op.Size), append([]byte(nil), data...))
 		got, err := e.tp.InsertTuple(tpl, c15Log(), nil, e.txn)
 		if err == nil && got != nil {
 			s := int(got.SlotNum)
+			if want >= 0 && s != want {
+				return c15v("rowid", tags, "%s was placed in slot %d although the slot it names is usable", op, s)
+			}
 			if got.PageID != types.PageID(c15PageID) {
 				return c15v("rowid", tags, "%s returned page id %d", op, got.PageID)
 			}
@@ -622,7 +641,34 @@ func (e *c15Exec) gen(rng *rand.Rand, profile int, fillNo uint64) c15Op {
 		if e.firstEmpty() >= 0 && rng.Intn(2) == 0 {
 			exact = free // what really fits when a slot is reused
 		}
-		return c15Op{Op: "ins", Slot: -1, Size: c15pickSize(rng, exact, profile), Fill: fillNo}
+		o := c15Op{Op: "ins", Slot: -1, Fill: fillNo}
+		if rng.Intn(5) == 0 {
+			// the row names its row id (redo of an insert, undo of a delete): a new slot, an empty one, or one that is in use
+			switch k := rng.Intn(4); {
+			case k == 0 && e.firstEmpty() >= 0:
+				var empties []int
+				for i := range e.slots {
+					if e.slots[i].st == c15Empty {
+						empties = append(empties, i)
+					}
+				}
+				o.At = empties[rng.Intn(len(empties))] + 1
+				exact = free
+			case k == 1 && len(e.slots) > 0:
+				o.At = rng.Intn(len(e.slots)) + 1
+			default:
+				o.At = len(e.slots) + 1
+				exact = free - c15SlotEntry
+			}
+		}
+		o.Size = c15pickSize(rng, exact, profile)
+		if o.At > 0 && rng.Intn(3) == 0 {
+			o.Size = exact + []int{0, 1, -1, 7, 8, 9, -8}[rng.Intn(7)] // around the exact fit, with and without the slot entry
+		}
+		if o.Size < 1 {
+			o.Size = 1
+		}
+		return o
 	case "upd":
 		s := e.pickSlot(rng, c15Live, true)
 		old := len(e.slots[s].data)
